@@ -7,9 +7,12 @@ Decided:  block sparsity, canonical (isometric) form and len(qD) consistency aft
           the truncation at the FIRST truncated bond obeys the C12 rule on the normalised weights; for tol = 0:
           nrm * scale * dense(new) = dense(old) (exactness, L <= 3) and nothing is discarded;
           MPS.from_vector(tol = 0) exactness is decided under C03.
-Outside:  the error BOUNDS scale >= sqrt(1 - L tol), ||psi - nrm scale psi'|| <= nrm sqrt(L tol) and the Pythagoras
-          identity for tol > 0 (nested SVDs need chains of inequalities over orthonormality constraints), scale = 1 at
-          tol = 0 as a separate VC, from_vector(tol > 0).
+          for L = 2 (D <= 2, both modes, symbolic tolerance): scale^2 + discarded relative weight = 1 and hence
+          1 - L tol <= scale^2 <= 1, by a chain of lemmas (unit norm of the tensor handed to the first SVD, Frobenius
+          identity of the SVD contract, w = 1, last singular value^2 = retained weight) each proved by the linearised
+          prover from the hypotheses and the previous lemmas.
+Outside:  the scale bound for L >= 3, the error identity ||psi - nrm scale psi'||^2 = nrm^2 (1 - scale^2) and the bound
+          nrm sqrt(L tol) (the overlap lemma <old, new> = nrm scale stays unproved at rounds <= 3), from_vector(tol > 0).
 """
 import itertools
 import numpy as np
@@ -50,6 +53,7 @@ def tasks(tier, seed):
     for mode in ('left', 'right'):
         add(mode, 2, (1, 1), 'zero', 'sym'); add(mode, 2, (1, 1), 'sym', 'sym')
         add(mode, 2, (1, 1, 1), 'zero', 'sym'); add(mode, 2, (1, 2, 1), 'zero', 'sym'); add(mode, 2, (1, 1, 1), 'zero', 'zero')
+        ts[-2]['bounds'] = True; ts[-3]['bounds'] = True
         if not q:
             add(mode, 2, (1, 2, 1), 'zero', 'zero')
         add(mode, 1, (1, 2, 1), 'zero', 'sym')
@@ -67,7 +71,7 @@ def tasks(tier, seed):
 
 
 def required_marks(tier):
-    return ['truncated_at_first_bond', 'nothing_truncated', 'exactness_checked', 'canonical_checked', 'phase_negative', 'phase_positive', 'schmidt_complement_checked']
+    return ['scale_identity_checked', 'truncated_at_first_bond', 'nothing_truncated', 'exactness_checked', 'canonical_checked', 'phase_negative', 'phase_positive', 'schmidt_complement_checked']
 
 
 def path(eng, acc, task):
@@ -92,6 +96,7 @@ def path(eng, acc, task):
         return          # property is about non-zero states
     fails = []
     FIRST_SVD.clear(); CURRENT['psi'] = psi
+    shims.FROBENIUS_LEMMA[0] = bool(task.get('bounds'))
     try:
         nrm, scale = psi.compress(tol, mode=mode)
     except SymDivisionByZero:
@@ -159,6 +164,53 @@ def path(eng, acc, task):
                     if prover.prove_escalating(eng, cg, rounds=(1, 2), acc=acc, label='vc_complement_canonical') != 'proved':
                         fails.append('at the first truncation the rest of the chain is not in the opposite canonical form: the truncated values are not Schmidt values')
                     eng.mark('schmidt_complement_checked')
+            # scale identity and bounds for L = 2 (a single truncated bond), by a chain of lemmas each proved from the hypotheses and the
+            # previous ones:  sum s_i^2 = 1 (the state handed to the first SVD is normalised);  s'^2 = sum_kept s_i^2 (s' = the single
+            # singular value of the last site);  scale^2 = s'^2;  hence scale^2 = retained relative weight, and with the truncation rule
+            # 1 - L tol <= 1 - tol <= scale^2 <= 1
+            if task.get('bounds') and L == 2 and len(c12.RBI_LOG) == 2 and not c12.zero_path(eng, given):
+                given2, idx2 = c12.RBI_LOG[1]
+                ok_chain = len(given2) == 1 and len(idx2) == 1
+                lemmas = []
+                if ok_chain:
+                    tot = c12.sum_sq(given)
+                    kept_sq = c12.sum_sq([given[i_] for i_ in idx])
+                    site = 0 if mode == 'left' else L - 1
+                    a_sq = c12.sum_sq(list(FIRST_SVD['A'][site].reshape(-1)))
+                    lemmas = [('tensor handed to the first SVD has unit norm', a_sq - 1),
+                              ('sum of squared singular values = squared norm of the tensor', tot - a_sq),
+                              ('last singular value^2 = retained weight', S(given2[0]) * S(given2[0]) - kept_sq),
+                              ('scale^2 = last singular value^2', S(scale) * S(scale) - S(given2[0]) * S(given2[0]))]
+                    w_, winv_, t_ = c12.weights(eng, given)
+                    lemmas.insert(2, ('the weights are normalised by 1 (w^2 = 1)', S(w_) * S(w_) - 1))
+                    lemmas.insert(3, ('1/w^2 = 1', S(winv_) * S(winv_) - 1))
+                    for nm_, g_ in lemmas:
+                        r_ = prover.prove_escalating(eng, [g_], rounds=(1, 2, 3), acc=acc, label='vc_scale_lemma')
+                        if r_ != 'proved':
+                            fails.append(f'scale identity: lemma "{nm_}" not proved')
+                            ok_chain = False
+                            break
+                        eng.hyps.append(dict(g_.t)); eng.hyp_tags.append('lemma')
+                if ok_chain:
+                    sc2 = S(scale) * S(scale)
+                    atoms_b = [a for a in (sc2 <= 1, sc2 >= 1 - L * S(tol)) if isinstance(a, Atom)]
+                    dsum_ = Sym()
+                    for k_, ti_ in enumerate(t_):
+                        if k_ not in idx:
+                            dsum_ = dsum_ + ti_
+                    g_fin = sc2 + dsum_ - 1
+                    if prover.prove_escalating(eng, [g_fin], rounds=(1, 2, 3), acc=acc, label='vc_scale_identity') != 'proved':
+                        fails.append(f'scale^2 + discarded relative weight = 1 not proved (kept {list(idx)} of {len(given)})')
+                    else:
+                        eng.hyps.append(dict(g_fin.t)); eng.hyp_tags.append('lemma')
+                        if atoms_b and prover.prove(eng, goal_atoms=atoms_b, rounds=1, acc=acc, label='vc_scale_bounds') != 'proved':
+                            fails.append('scale bounds 1 - L tol <= scale^2 <= 1 not proved')
+                    eng.mark('scale_identity_checked')
+                    # vacuity: with the lemmas appended the hypotheses must still be consistent (a shifted goal must NOT be provable)
+                    if acc.get('scale_canary') < 3:
+                        acc.inc('scale_canary')
+                        if not prover.canary(eng, g_fin, rounds=2):
+                            fails.append('canary proved after the lemma chain: hypotheses inconsistent (vacuous)')
             # exactness whenever nothing was discarded anywhere (in particular for tol = 0 after promoting zero weights)
             if task['tolmode'] == 'zero':
                 eng.promote_zeros()
